@@ -210,6 +210,8 @@ def sym_compare(op, a, b):
 def r_not(r):
     if isinstance(r, SV):
         return simp(z3.Not(zbool(r)))
+    if not isinstance(r, (bool, int)):
+        raise Unsupported(f"logical negation of {type(r).__name__}")
     return not r
 
 
